@@ -3,11 +3,12 @@
 import Driver.Common
 import GivaroModel.Model.Random
 import GivaroModel.Model.RandomDest
+import GivaroModel.Model.RandomRings
 import GivaroModel.Spec.RandomSpec
 -- @driver-mode random Driver.Random.randomLine
 namespace Driver.Random
 open Driver
-open Givaro Givaro.Model.Random Givaro.Spec.Random
+open Givaro Givaro.Model.Random Givaro.Model.RandomRings Givaro.Spec.Random
 
 /-- raw generator that replays the draws recorded by the harness: (kind, argument, value) with kind 0 = `get_z_bits`,
     1 = `get_z_range`; a request whose kind or argument differs from the recorded one marks the replay as diverged -/
@@ -104,31 +105,68 @@ def modSty (t : Int) : Option (Nat × Bool) :=
 
 def loopFuel : Nat := 4096
 
+/-- element type of the `ZRing<T>` instantiations (type column 0x31 … 0x38) -/
+def zSty (t : Int) : Option (Nat × Bool) :=
+  if t == 0x31 then some (8, true) else if t == 0x32 then some (8, false) else if t == 0x33 then some (16, true)
+  else if t == 0x34 then some (16, false) else if t == 0x35 then some (32, true) else if t == 0x36 then some (32, false)
+  else if t == 0x37 then some (64, true) else if t == 0x38 then some (64, false) else none
+
+/-- the classes of Model/RandomRings.lean (type column of the harness) -/
+def ringDrawOf (t p : Int) : Option RingDraw :=
+  if t == 0x10 || t == 0x11 then some (fltRing p)
+  else if t == 0x12 then some (balRing wrapS32 p)
+  else if t == 0x13 then some (balRing wrapS64 p)
+  else if t == 0x14 || t == 0x15 then some (balRing id p)
+  else if t == 0x16 then some (mgRing p)
+  else if t == 0x39 then some zfltRing
+  else (zSty t).map (fun bs => zintRing bs.1 bs.2)
+
 /-- the harness pre-fills the destinations of the first sequence with the all-ones / -1 pattern of the element type -/
 def junkOf (t : Int) : Int :=
   match modSty t with
   | some (bits, sgn) => if sgn then -1 else 2 ^ bits - 1
-  | none => if t == 0x1a || t == 0x1b then 2 ^ 128 - 1 else -1
+  | none =>
+    if t == 0x1a || t == 0x1b then 2 ^ 128 - 1 else if t == 0x30 then 1
+    else match zSty t with
+      | some (bits, sgn) => if sgn then -1 else 2 ^ bits - 1
+      | none => -1
 
 def ringCase (a : List Int) (res : List Int) (line : String) : String :=
   match a, res with
   | [t, p, k, seed, fn, size, n], eq :: es =>
     if seed == 0 then "PRE" else
     let q : Int := if t == 0x20 || t == 0x21 then p ^ k.toNat else p
-    let canon : Int → Bool := if 0x12 ≤ t && t ≤ 0x15 then canonicalBal q else canonical q
+    let canon : Int → Bool :=
+      if 0x12 ≤ t && t ≤ 0x15 then canonicalBal q
+      else if t == 0x39 then (fun e => decide (0 ≤ e ∧ e < 9007199254740992))
+      else match zSty t with
+        | some (bits, sgn) => (fun e => if sgn then decide (-(2 ^ (bits - 1)) ≤ e ∧ e < 2 ^ (bits - 1)) else decide (0 ≤ e ∧ e < 2 ^ bits))
+        | none => canonical q
     let nz := fn == 3 || fn == 5 || fn == 7
+    -- fn 8: `Ring::RandIter(F, seed, size)`; fn 9: the same iterator, copy-assigned to one built with another size (the harness reports
+    -- `eq = 0` when the assigned-to iterator does not continue like the original).  `ModularRandIter` stores the size and never reads
+    -- it (fn 0), `GIV_randIter` (GFqDom, GF2) is fn 1, `GeneralRingRandIter` (ZRing) is fn 2
+    let fnM : Int := if fn == 8 || fn == 9 then (if t == 0x20 || t == 0x21 || t == 0x30 then 1 else if 0x31 ≤ t && t ≤ 0x39 then 2 else 0) else fn
     -- eq: the sequence drawn into pre-filled destinations equals the one drawn into zeroed destinations by an iterator that is
     -- replaced by a copy of itself half-way (destination independence, reproducibility from the seed, copy semantics)
+    -- ZRing: `GeneralRingRandIter(F, seed, size)` with a non-zero sampling size returns elements of [0, size)
+    let sized : Bool := 0x31 ≤ t && t ≤ 0x39 && (fn == 2 || fn == 8) && size != 0
     let specOk := eq == 1 && decide (es.length = n.toNat) && es.all canon && (!nz || es.all (· != 0))
+                  && (!sized || es.all (fun e => decide (0 ≤ e ∧ e < size)))
     let olds := List.replicate n.toNat (junkOf t)
     let model : Option (Option (List Int)) :=
       match modSty t with
-      | some (bits, sgn) => some ((modRun bits sgn p fn.toNat size loopFuel olds (givInit seed)).map (·.1))
+      | some (bits, sgn) => some ((modRun bits sgn p fnM.toNat size loopFuel olds (givInit seed)).map (·.1))
       | none =>
-        if t == 0x20 then some ((gfqRun 32 q fn.toNat size loopFuel olds (givInit seed)).map (·.1))
-        else if t == 0x21 then some ((gfqRun 64 q fn.toNat size loopFuel olds (givInit seed)).map (·.1))
+        if t == 0x20 then some ((gfqRun 32 q fnM.toNat size loopFuel olds (givInit seed)).map (·.1))
+        else if t == 0x21 then some ((gfqRun 64 q fnM.toNat size loopFuel olds (givInit seed)).map (·.1))
         else if t == 0x1a || t == 0x1b then some ((ruRingRun 7 p fn.toNat loopFuel olds (givInit seed)).map (·.1))
-        else none
+        else if t == 0x30 then some ((gf2Run fnM.toNat loopFuel olds (givInit seed)).map (·.1))
+        -- Modular<Integer>::random(g, r) / nonzerorandom(g, r): `init(r, g())` = `r = g(); r %= p` (its RandIter draws from GMP: spec only)
+        else if t == 0x18 && (fn == 4 || fn == 5) then some ((rRun (fltRing p) fn.toNat size loopFuel olds (givInit seed)).map (·.1))
+        else match ringDrawOf t p with
+          | some R => some ((rRun R fnM.toNat size loopFuel olds (givInit seed)).map (·.1))
+          | none => none
     match model with
     | none => verdict specOk true "speconly" line                 -- ring type whose `init` is not modelled here: implementation vs specification
     | some m => verdict specOk (m == some es) (match m with | some l => showL l | none => "LOOP") line
@@ -153,8 +191,41 @@ def polyCase (a : List Int) (r0 r1 r2 : List Int) (line : String) : String :=
       let old : List Int := List.replicate ((if arg > 0 then arg.toNat else 0) + 9) 1
       let m := (polyRandomD 32 true p d loopFuel old (givInit seed)).map (·.1)
       verdict specOk (m == some cs) (match m with | some l => showL l | none => "LOOP") line
+    else if t == 0x20 then
+      -- Poly1Dom<GFqDom<int32_t>>: the generic polynomial model over the GFqDom coefficient draws
+      let old : List Int := List.replicate ((if arg > 0 then arg.toNat else 0) + 9) 1
+      let m := (polyRandomG (gfqCoef 32 q) d loopFuel old (givInit seed)).map (·.1)
+      verdict specOk (m == some cs) (match m with | some l => showL l | none => "LOOP") line
+    else if t == 0x11 || t == 0x12 || t == 0x16 then
+      -- Poly1Dom over a RingDraw class: the generic polynomial model; coefficients in the class's element range
+      let canon : Int → Bool := if t == 0x12 then canonicalBal p else canonical p
+      let specG := (if d < 0 then cs.isEmpty else decide (cs.length = d.toNat + 1) && cs.all canon && decide (cs.getLast? ≠ some 0))
+                   && cs1 == cs && cs2 == cs
+      let R : RingDraw := if t == 0x11 then fltRing p else if t == 0x12 then balRing wrapS32 p else mgRing p
+      let old : List Int := List.replicate ((if arg > 0 then arg.toNat else 0) + 9) 1
+      let m := (polyRandomG (ringCoef R) d loopFuel old (givInit seed)).map (·.1)
+      verdict specG (m == some cs) (match m with | some l => showL l | none => "LOOP") line
     else verdict specOk true "speconly" line
   | _, _, _, _ => "BAD poly | " ++ line
+
+/-- `ext p e seed kind arg = r0 U r1 U r2` (Extension<Modular<int32_t>>) -/
+def extCase (a : List Int) (r0 r1 r2 : List Int) (line : String) : String :=
+  match a, polyOf r0, polyOf r1, polyOf r2 with
+  | [p, e, seed, kind, arg], some cs, some cs1, some cs2 =>
+    if seed == 0 then "PRE" else
+    if kind == 6 then
+      -- Extension::RandIter: `order()` coefficients, each canonical (the vector is not normalised: the polynomial domain
+      -- normalises lazily); the three draws agree (pre-filled / fresh destination, copied iterator)
+      verdict (decide (cs.length = e.toNat) && cs.all (canonical p) && cs1 == cs && cs2 == cs) true "speconly" line
+    else
+      let d := extDegree e kind.toNat arg
+      -- a non-zero element of size 0 does not exist; `b` must be an element of the field
+      if (d < 0 && kind ≥ 3) || (kind % 3 == 2 && arg > e) then "PRE" else
+      let specOk := polyDegOk p d cs && decide ((cs.length : Int) ≤ e) && cs1 == cs && cs2 == cs
+      let old : List Int := List.replicate (e.toNat + 9) 1
+      let m := (extRandomD p e kind.toNat arg loopFuel old (givInit seed)).map (·.1)
+      verdict specOk (m == some cs) (match m with | some l => showL l | none => "LOOP") line
+  | _, _, _, _ => "BAD ext | " ++ line
 
 /-- successive `rand` values from the word stream, every destination holding `old` -/
 def ruSeq (f : Int → List Int → Int × List Int) (old : Int) : Nat → List Int → List Int × List Int
@@ -219,6 +290,7 @@ def randomLine (line : String) : String :=
           | _ => "BAD | " ++ line
         else if key == "ring" then ringCase a (v ++ []) line
         else if key == "poly" then polyCase a v u1 u2 line
+        else if key == "ext" then extCase a v u1 u2 line
         else if key == "ru" || key == "ri" then
           match a with
           | [k, _, n] =>
@@ -242,7 +314,24 @@ def randomLine (line : String) : String :=
           | none => "BAD trace | " ++ line
           | some t =>
             if !contractOk t then "BAD contract | " ++ line else
-            if key == "rii" then
+            if key == "qf" then
+              match a, v, u1 with
+              | [_, _, kind, x, y], [num, den], [num2, den2] =>
+                let bq := qfBound x y
+                let pre := if kind ≤ 1 then decide (1 ≤ x) else decide (0 < y) && decide ((if kind == 3 then 2 else 1) ≤ bq.num) && decide (2 ≤ bq.den)
+                if !pre then "PRE" else
+                let nb : Int := if kind ≤ 1 then 2 ^ x.toNat else bq.num
+                let db : Int := if kind ≤ 1 then 2 ^ x.toNat else bq.den
+                -- canonical rational (positive denominator, lowest terms), inside the requested bounds, non-zero where promised,
+                -- and the same from the same generator state whatever the destination held
+                let specOk := decide (0 < den) && decide (Int.gcd num den = 1) && decide (0 ≤ num) && decide (num < nb) && decide (den < db)
+                              && (kind % 2 == 0 || decide (num ≠ 0)) && num2 == num && den2 == den
+                let m := qfRandomD trGen kind.toNat x y (t.length + 1) ⟨0, 1⟩ ⟨t, true⟩
+                match m with
+                | some (q, g) => verdict specOk (q.num == num && q.den == den && g.ok && g.rest.isEmpty) (hexInt q.num ++ " " ++ hexInt q.den) line
+                | none => verdict specOk false "NONE" line
+              | _, _, _ => "BAD qf | " ++ line
+            else if key == "rii" then
               match a with
               | [_, _, u, e, how, b, k, old] =>
                 let ub := u != 0
